@@ -321,6 +321,9 @@ def universe(tier, sources, groups):
     return '=' + defs + '<<' + ',\n  '.join(call) + '>>', '=' + defs + '<<' + ',\n  '.join(mp) + '>>'
 
 
+WRITES_SHARED = [True]      # measured at the start of run(): does _get_map write into the query it is given?
+
+
 def model_consts(sources, groups, flags, call_cases, map_cases):
     return {
         'Src': {c.sid: c.record() for c in sources},
@@ -333,6 +336,7 @@ def model_consts(sources, groups, flags, call_cases, map_cases):
         'BestSrsFromList': bool(flags['BestSrsFromList']),
         'CombineChecksCodes': bool(flags['CombineChecksCodes']),
         'MissingSrsListCrashes': bool(flags.get('MissingSrsListCrashes', True)),
+        'WritesSharedQuery': bool(WRITES_SHARED[0]),
         'MapCases': map_cases,
         'CallCases': call_cases,
     }
@@ -1393,6 +1397,9 @@ def record_and_judge(ctx, flags, srcmap_extra=None):
 
 
 def run(ctx):
+    from harness import c17_shared
+    WRITES_SHARED[0] = c17_shared.implements() == 'shared'
+    c17_shared.run(ctx)
     thorough = ctx.tier == 'thorough'
     tlc.sany(SPEC)
     sources = lattice_sources() + geo_sources()
